@@ -56,7 +56,7 @@ def build(seed, i, tier, avoid=True, force=None):
     if fresh_file:
         init = {} if kind == "dict" else []   # the file does not exist yet: the first write creates it next to the readers
     pre = [{"t": "new_res", "family": fam, "kind": kind, "init": None if fresh_file else init}]
-    late_threading = rs.random() < 0.12
+    late_threading = rs.random() < 0.3
     if late_threading:
         # the objects are constructed while threading support is switched OFF; it is switched on before the threads start
         pre.append({"t": "threading", "on": False})
